@@ -217,7 +217,7 @@ def spec_schedules(ctx, name, kinds, rounds, per_round):
     out = []
     for rnd in range(rounds):
         ft = sorted(rng.sample(range(0, 18), rng.choice([1, 2, 3])))
-        consts = {"Match": "C04_Match", "Cfg": "C04_" + name, "Sw": "AllOff", "Kinds": kinds, "MaxFaults": rng.choice([2, 3, 4, 5]),
+        consts = {"Match": "C04_Match2" if name == "two" else "C04_Match", "Cfg": "C04_" + name, "Sw": "AllOff", "Kinds": kinds, "MaxFaults": rng.choice([2, 3, 4, 5]),
                   "FaultWindow": 18, "Horizon": 24, "Delays": "{1, 2, 5}", "Sched": '"any"', "FaultTimes": "{%s}" % ", ".join(map(str, ft))}
         for h in simreplay.behaviours2(consts, per_round, 2500, ctx.seed * 1000 + rnd):
             faults = simreplay.faults_of(h)
@@ -249,7 +249,8 @@ def check(ctx):
             kn = [p for p in kn if not (p[0] == "crash" and p[2] == "srv")]
         traces += sweep(name, kn, range(0, ctx.pick(10, 24)), ctx.pick([0, 1, 3, 13], [0, 1, 2, 3, 4, 5, 8, 13, 20]))
     sim = spec_schedules(ctx, "fin", "AllKinds", ctx.pick(4, 30), ctx.pick(5, 10)) + \
-        spec_schedules(ctx, "inf1", "InfKinds", ctx.pick(2, 15), ctx.pick(5, 10))
+        spec_schedules(ctx, "inf1", "InfKinds", ctx.pick(2, 15), ctx.pick(5, 10)) + \
+        spec_schedules(ctx, "two", "TwoAllKinds", ctx.pick(2, 15), ctx.pick(5, 10))
     nsim = len(sim)
     traces = sim + traces        # (first in line for trace validation as well)
     bad, ms = judge(ctx, "Mon_C04", traces, "two-stack runs", payload)
